@@ -26,7 +26,7 @@ for d in sorted(os.listdir(os.path.join(V, "seeded"))):
     for k, v in sorted(meta.get("verdicts", {}).items()):
         kinds = sorted({re.sub(r"^\s*\[\w+\]\s*", "", l).split(":")[0] for l in v["lines"] if l.startswith("  [")})
         verdict.append(f"{k.split('@')[0]}: exit {v['exit']}" + (f" ({', '.join(kinds)[:80]})" if kinds else ""))
-    reported = ", ".join(meta.get("caught_by", [])) or ("superseded (see meta.json)" if meta.get("status") == "superseded" else "MISSED")
+    reported = ", ".join(meta.get("caught_by", [])) or ({"superseded": "superseded (see meta.json)", "rejected": "rejected: not a violation (see meta.json)"}.get(meta.get("status"), "MISSED"))
     rows.append((d, meta["property"], ", ".join(files), needs, reported, "; ".join(verdict)))
 
 with open(os.path.join(V, "seeded", "README.md"), "w") as f:
@@ -38,7 +38,8 @@ with open(os.path.join(V, "seeded", "README.md"), "w") as f:
     for r in rows:
         f.write("| " + " | ".join(r) + " |\n")
     n = len(rows)
-    c = sum(1 for r in rows if r[4] != "MISSED" and not r[4].startswith("superseded"))
+    c = sum(1 for r in rows if r[4] != "MISSED" and not r[4].startswith(("superseded", "rejected")))
     sup = sum(1 for r in rows if r[4].startswith("superseded"))
-    f.write(f"\n{c} of {n} reported by a check (quick tier, seed 1); {sup} superseded by a repair of /repo; {n - c - sup} missed.\n")
+    rej = sum(1 for r in rows if r[4].startswith("rejected"))
+    f.write(f"\n{c} of {n} reported by a check (quick tier, seed 1); {sup} superseded by a repair of /repo; {rej} rejected as not violating the property; {n - c - sup - rej} missed.\n")
 print(f"{len(rows)} rows")
